@@ -39,14 +39,13 @@ type histRun struct {
 	track *sidecarTrack
 	ops   []string
 
-	restarts           int
-	restartsBehind     int // restarts with the replica ahead of the sidecar
-	restartsBridging   int // ... and the next level-0 file already gone
-	checks             int
-	startedWithDB      bool
-	sidecarAtStart     int
-	everStarted        bool
-	stoppedDuringApply int
+	restarts         int
+	restartsBehind   int // restarts with the replica ahead of the sidecar
+	restartsBridging int // ... and the next level-0 file already gone
+	checks           int
+	startedWithDB    bool
+	sidecarAtStart   int
+	everStarted      bool
 }
 
 func (h *histRun) interval() time.Duration { return time.Duration(h.s.IntervalMs) * time.Millisecond }
@@ -69,7 +68,7 @@ func (h *histRun) start() {
 		}
 	}
 	h.everStarted = true
-	h.f = startInproc(h.p.e.RepPath, h.out, h.interval())
+	h.f = startInproc(h.p.e.RepPath, h.out, h.interval(), false)
 	h.res.Logf("follower start: db exists=%v sidecar=%d replica max=%d floor=%d L0=%v", h.startedWithDB, h.sidecarAtStart, rmax, snapshotFloor(h.p.e.RepPath), l0Set(h.p.e.RepPath))
 	if !h.startedWithDB {
 		// An initial restore racing the primary's retention is not this property's
@@ -119,6 +118,9 @@ func (h *histRun) stop() bool {
 	h.res.Logf("follower stopped: err=%q sidecar=%d replica max=%d", msg, sc, h.p.max())
 	if msg != "" {
 		h.res.Count("graceful_stop_returned_error", 1) // e.g. cancelled during the initial restore: allowed
+		if os.Getenv("VERIF_C16_KEEP") != "" {
+			h.res.Count(fmt.Sprintf("graceful_stop_error:%.100s", msg), 1)
+		}
 	}
 	h.f = nil
 	return true
